@@ -146,6 +146,11 @@ class HeuristicTopoPass( UnrollSimPass ):
       hostobj = top.get_update_block_host_component( blk )
       branchiness[ blk ], _ = visitor.enter( hostobj.get_update_block_info( blk )[-1] )
 
+    # A block that calls a blocking method has been replaced by a greenlet
+    # wrapper (WrapGreenletPass): the wrapper is what gets scheduled
+    for blk, wrapper in getattr( top._dag, 'blk_greenlet_mapping', {} ).items():
+      branchiness[ wrapper ] = branchiness.get( blk, 0 )
+
     # Perform topological sort for a serial schedule.
     # Note that here we use a priority queue to get the blocks with small
     # branchiness as early as possible
